@@ -58,6 +58,12 @@ var scenarios = []scenario{
 		Threads: [][]call{{{Kind: "metric", NS: "ns", Name: "old"}, {Kind: "metric", NS: "ns", Name: "m"}}, {{Kind: "prepare"}, {Kind: "flush"}}}},
 	{Name: "field-vs-flush", Pre: []call{{Kind: "field", Name: "f0"}},
 		Threads: [][]call{{{Kind: "field", Name: "f1"}}, {{Kind: "prepare"}, {Kind: "flush"}}, {{Kind: "tagkey", Name: "host"}}}},
+	// the bucket is already in a file; a second flush adds a name to it while another thread looks an old name up
+	// (a bucket loaded from the snapshot of before the flush must not be served after it)
+	{Name: "persisted-tagvalues-second-flush", Pre: []call{{Kind: "tagvalue", Name: "old"}}, PreFlush: true,
+		Threads: [][]call{{{Kind: "tagvalue", Name: "new"}, {Kind: "prepare"}, {Kind: "flush"}}, {{Kind: "tagvalue", Name: "old"}, {Kind: "tagvalue", Name: "old"}}}},
+	{Name: "persisted-metrics-second-flush", Pre: []call{{Kind: "metric", NS: "ns", Name: "old"}}, PreFlush: true,
+		Threads: [][]call{{{Kind: "metric", NS: "ns", Name: "m"}, {Kind: "prepare"}, {Kind: "flush"}}, {{Kind: "metric", NS: "ns", Name: "old"}, {Kind: "metric", NS: "ns", Name: "old"}}}},
 	{Name: "tagvalue-vs-flush", Pre: []call{{Kind: "tagvalue", Name: "old"}},
 		Threads: [][]call{{{Kind: "tagvalue", Name: "a"}}, {{Kind: "prepare"}, {Kind: "flush"}}, {{Kind: "tagvalue", Name: "a"}, {Kind: "tagvalue", Name: "old"}}}},
 }
